@@ -107,6 +107,26 @@ class FortranExpressionMapper(StringifyMapper):
                 self.join_rec(" * ", expr.children, PREC_PRODUCT, *args, **kwargs),
                 enclosing_prec, PREC_PRODUCT)
 
+    def map_power(self, expr, enclosing_prec):
+        from pymbolic.mapper.stringifier import PREC_POWER
+
+        exponent = expr.exponent
+        if (isinstance(exponent, (int, np.integer))
+                and not isinstance(exponent, (bool, np.bool_))):
+            # An integer exponent stays an integer: x**2d0 is a NaN for
+            # negative x (and is rejected outright for a negative constant).
+            if exponent < 0:
+                exponent_str = "(%d)" % exponent
+            else:
+                exponent_str = "%d" % exponent
+        else:
+            exponent_str = self.rec(exponent, PREC_POWER)
+
+        return self.parenthesize_if_needed(
+                "{}**{}".format(
+                    self.rec(expr.base, PREC_POWER), exponent_str),
+                enclosing_prec, PREC_POWER)
+
     def map_comparison(self, expr, enclosing_prec):
         from pymbolic.mapper.stringifier import PREC_COMPARISON
 
